@@ -238,6 +238,9 @@ func stimString(st Stim) string {
 	case opRecv:
 		return fmt.Sprintf("TryReceive(s%d)", st.S)
 	case opAdvance:
+		if st.S == 1 {
+			return "Advance(past the 60ms timeouts only)"
+		}
 		return "Advance(past every short timeout)"
 	case opCloseSub:
 		return fmt.Sprintf("s%d.Close()", st.S)
